@@ -323,6 +323,7 @@ RunResult run_plan(const Plan &plan, const RunOptions &opt, Counters &cnt) {
     sim::SchedConfig c0;
     c0.policy = sim::P_RUN_TO_BLOCK;
     c0.seed = plan.sched.seed;
+    c0.static_init_throw = (uint32_t)plan.static_init_throw;
     run_world(plan, c0, canon);
     have_canon = true;
     fold_stats(local, canon.stats);
@@ -330,6 +331,7 @@ RunResult run_plan(const Plan &plan, const RunOptions &opt, Counters &cnt) {
   WorldResult ex;
   sim::SchedConfig cfg = plan.sched;
   cfg.record = opt.record_switches;
+  cfg.static_init_throw = (uint32_t)plan.static_init_throw;
   run_world(plan, cfg, ex);
   fold_stats(local, ex.stats);
   rr.stats = ex.stats;
@@ -362,6 +364,12 @@ RunResult run_plan(const Plan &plan, const RunOptions &opt, Counters &cnt) {
       size_t at = m;
       for (size_t i = 0; i < m; i++) {
         local.canonical_compared_ops++;
+        // StaticInitThrow configuration: whichever task happens to run the
+        // initialiser sees the fault, so isZero may legitimately report either
+        // its value or the fault (DESIGN §3 C18, soundness of oracle (b))
+        if (plan.static_init_throw && i < plan.progs[t].size() && plan.progs[t][i].kind == OP_P_ISZERO &&
+            (a.status[i] == ST_SCALARFAULT || b.status[i] == ST_SCALARFAULT))
+          continue;
         if (a.obs[i] != b.obs[i] || a.status[i] != b.status[i]) {
           bad = true;
           at = i;
